@@ -30,6 +30,9 @@ CLAIMED = {
  "C16": ("ghost release counters set by the contracts of every release operation; whole-teardown postcondition on the DHCPv4 teardown path and exactly-once/none postconditions on RELEASE, DECLINE and expiry; VCs discharged by z3/cvc5",
          "Deductive proof for the DHCPv4 server: ending a session by RELEASE, DECLINE or lease expiry returns (or quarantines) the address exactly once, removes NAT and QoS when configured, removes the MAC / VLAN-pair / circuit-id fast-path entries that exist, and issues exactly one Accounting-Stop iff a RADIUS session was started; a client without a lease causes no release. Two genuine defects (DECLINE and expiry released almost nothing) were found and repaired. PPPoE and RADIUS-disconnect paths are undecided.",
          "Trusted: VC generator, solvers, trusted frames for the eBPF/QoS removers, goroutine closures executed inline, monitor model for the server's and pools' mutexes.", "DESIGN.md §5 C16"),
+ "C07": ("bit-precise symbolic execution of the LLVM IR that clang-14 produces from the real bpf/*.c on every run: in-bounds obligation per memory access, unwinding obligation per loop, verdict-set and pass-unmodified obligations per program; z3/cvc5; counterexamples replayed on the natively compiled C against a guard page",
+         "Deductive proof, for every frame length 0..65535, every frame content, every ctx and every map state, that the seven XDP/TC entry points only touch bytes inside their regions (packet, stack, map values), terminate (loops fully unrolled with unwinding obligations), return a verdict of their program type, and return the pass verdict only with the frame unmodified unless the program's acts predicate holds. Two genuine pass-after-rewrite paths in dhcp_fastpath.c were found, replayed natively and repaired.",
+         "Trusted: clang/opt, the IR executor written for this task, solvers, BPF helper contracts (assumed), x86_64 IR standing for the bpf target.", "DESIGN.md §5 C07"),
  "C09": ("zero-annotation safety sweep: index/slice/nil/div/make obligations + loop variants with Houdini-inferred invariants over every function reachable from the network-facing decoders, counterexamples replayed on the real code",
          "Deductive proof of absence of run-time panics and of loop termination measures for the obligations recorded in spec/C09.baseline.json (about 1700 obligations, 117 fully clean functions) for all byte strings and all receiver states; obligations that need caller-side contracts are listed as undecided and not claimed.",
          "Trusted: VC generator, solvers, assumed library contracts (encoding/binary, net, hash, zap...), third-party decoders assumed not to panic, heap havoc at un-contracted calls and lock acquisitions.", "DESIGN.md §5 C09"),
